@@ -100,7 +100,7 @@ class GatewayMonitor:
             self.model.restart()
             if obs.exc is not None and "exc" in self.clauses:
                 viols.append(self.v("exception", "restart", f"stop/restart raised {obs.exc['type']}: {obs.exc['text']} at {obs.exc['site']}", f"{obs.exc['type']}@{obs.exc['site']}"))
-        elif kind == "tick":
+        elif kind in ("tick", "tickfail"):
             if obs.exc is not None and "exc" in self.clauses:
                 viols.append(self.v("exception", "tick", f"scheduled save raised {obs.exc['type']}: {obs.exc['text']} at {obs.exc['site']}", f"{obs.exc['type']}@{obs.exc['site']}"))
         if kind in ("set", "fw", "rx", "rx2") and not self.poisoned:
@@ -196,6 +196,10 @@ class GatewayMonitor:
                     self.model.commit_desired(ev[1], (ev[2], int(ev[3]), ev[4]))
                 except (ValueError, TypeError):
                     self.poisoned = True
+            elif not raised:
+                # awake node: an invalid command must not leave the gateway (the model expects no emission)
+                self.stats["invalid_calls_not_refused"] += 1
+                self.judge_emissions(world, ev, obs, exp, observed, viols, asleep_before)
             return
         if raised:
             if exp.may_raise:
@@ -275,6 +279,8 @@ class GatewayMonitor:
             want_cmp = "replies" in self.clauses or ("ota" in self.clauses and ev[0] == "rx")
         if exp.id_response is not None and "ids" in self.clauses:
             self.judge_id(ev, exp, viols)
+        if exp.id_response == "missing" and ("ids" in self.clauses or "replies" in self.clauses):
+            viols.append(self.v("id-request-unanswered", exp.kind, f"{short(ev)}: no id response although an id above every known and handed-out id is free (known: {sorted(self.model.nodes)})"))
         if not want_cmp:
             return
         err = self.compare(exp, observed, obs)
